@@ -205,7 +205,23 @@ func init() {
 							}
 						}
 					default:
-						w.Yield("pause")
+						if w.T.Bool(1, 2, "pause") {
+							w.Yield("pause")
+							continue
+						}
+						// the description of a feature of an announced entity changes (seed C07-g): later
+						// replies and announcements carry the new one
+						le := L.Ents[1+w.T.Choose(len(L.Ents)-1, "entity")]
+						if len(le.Feats) == 0 {
+							continue
+						}
+						lf := le.Feats[w.T.Choose(len(le.Feats), "feature")]
+						desc := fmt.Sprintf("description-%d", w.Uniq())
+						w.Logf("SetDescriptionString %s/%d %q", fmtUints(le.Addr), lf.ID, desc)
+						lf.F.SetDescriptionString(desc)
+						lf.Desc = desc
+						d.snap(w)
+						w.Probe("c07-description-changed")
 					}
 				}
 			})
